@@ -310,11 +310,11 @@ def is_fragile(desc, row, o):
     if o[0] != "error":
         for b in o[1]:
             for d, _ in b:
-                if d == d and 0 < abs(d) < 1e-12:
+                if d == d and 0 < abs(d) < 1e-6:
                     return True
         for ov in o[0]:
             for _, d, _ in ov["fuzzy"]:
-                if d == d and 0 < abs(d) < 1e-12:
+                if d == d and 0 < abs(d) < 1e-6:
                     return True
     # a degree within rounding distance of an activation threshold (but not equal to it): `>=` may go either way
     if o[0] != "error":
@@ -354,7 +354,31 @@ def model_tiny(m):
     vals = [a[1] for l in mfz if l != "()" for a in l] + [r[0] for b in mrules if b != "()" for r in b]
     for v in vals:
         x = C.parse_x(v)
-        if not isinstance(x, str) and 0 < abs(x) < 1e-12:
+        if not isinstance(x, str) and 0 < abs(x) < 1e-6:
+            return True
+    return False
+
+
+def inexact(desc, o, m):
+    """`exact` family only: the comparison of discontinuous operators is meaningful while float evaluation is exact; as soon
+    as one observed degree differs from the model's in the last bit (an absorbed 1 - 1e-20, a rounded product) rounding has
+    occurred upstream and a branch may legitimately differ"""
+    if not desc["exact"] or o[0] == "error" or m == "error":
+        return False
+    from fractions import Fraction
+    (mfz, mrules, _raw), _v, _p = m
+    pairs = []
+    for ov, mf in zip(o[0], mfz):
+        mf = [] if mf == "()" else mf
+        pairs += [(a[1], b[1]) for a, b in zip(ov["fuzzy"], mf)]
+    for rb, mb in zip(o[1], mrules):
+        mb = [] if mb == "()" else mb
+        pairs += [(a[0], b[0]) for a, b in zip(rb, mb)]
+    for a, b in pairs:
+        x = C.parse_x(b)
+        if isinstance(x, str) or a != a or math.isinf(a):
+            continue
+        if Fraction(a) != x and abs(Fraction(a) - x) < Fraction(1, 10 ** 6):
             return True
     return False
 
@@ -412,7 +436,7 @@ def correspond(ctx):
                             "outputs": [ov["value"] for ov in o[0]] if o[0] != "error" else o[:2]} if nt and len(st.samples) < 5 else None)
             st.validated += 1
             bad = compare_row(desc, o, mr)
-            if bad and (model_tiny(mr) or is_fragile(desc, rows[ri], o)):
+            if bad and (model_tiny(mr) or inexact(desc, o, mr) or is_fragile(desc, rows[ri], o)):
                 st.skipped_fragile += 1
                 break          # later rows depend on the carried state of this one
             if bad:
